@@ -77,6 +77,12 @@ CLAIMS = {
         "Static: non-2-D and non-square inputs with more than one element are rejected on every path to any solver (including the diagonal fast path); the positive-root guard dominates the power; on both enhance_stability branches every eigenvalue becomes lambda - min(lambda_min, 0) + epsilon before the power (the mechanism that keeps powered values >= epsilon > 0), with lambda_min taken from the same eigenvalues; a decomposition failure is retried in double precision only under the flag and a non-float64 dtype, otherwise re-raised; X is assembled as (Q * lambda^(-1/root)) @ Q^T from the shifted eigenvalues of A (or A + eps I) (exact term comparison). NOT decided: finiteness, symmetry, the eigenvalue bound, commutation, equivariance of the floating-point result.",
         "The scalar shadow abstracts the elementwise tensor update of the eigenvalue vector by the same update on one eigenvalue.",
     ),
+    "C12": (
+        "DESIGN.md §9.8 (C12 was not-applicable in the design round)",
+        "structural checks around torch.linalg.eigh / qr: call-argument and return-shape analysis of matrix_eigenvalue_decomposition, dispatch-table evaluation of matrix_eigenvectors, exactness of the diagonal flag, term-valued abstract interpretation of one orthogonal (QR) iteration",
+        "Static, structural part only: the eigendecomposition method returns eigh's (eigenvalues, eigenvectors) of the matrix it was given on the caller's device, retrying in double precision only under the flag; a 1-element input yields one and a diagonal-flagged input the identity, with an exact diagonal flag and shape rejection first; each eigenvector config reaches its method with the previous basis, tolerance and iteration cap forwarded and unknown configs raise; the QR method falls back to the eigendecomposition for a zero estimate, performs Q <- qr(A @ Q).Q with the relative-change stopping rule and returns columns in ascending Rayleigh-quotient order (exact term comparison). NOT decided: orthonormality, ascending order and diagonalisation themselves (contracts of torch.linalg.eigh / qr, trusted), the fixed-point property up to signs, all accuracy statements.",
+        "Trusts torch.linalg.eigh (orthonormal Q, ascending eigenvalues) and torch.linalg.qr (orthonormal Q spanning the columns of its argument).",
+    ),
     "C13": (
         "DESIGN.md §3 C13",
         "try/except shape + dominance analysis on the CFG of both _amortized_computation copies, dtype-provenance of the value tested for finiteness, exhaustive interpretation of the tolerance-counter routine, write-through rule on subscript stores into masked lists (index-space typing)",
@@ -110,7 +116,6 @@ CLAIMS = {
 }
 
 NOT_APPLICABLE = {
-    "C12": "purely numerical post-conditions of eigenvector routines (orthonormality, ordering, span, fixed point up to signs); no structural necessary condition is visible in the code beyond the dispatch/fast-path structure already decided under C10/C11 for the same functions (DESIGN.md §3 C12, §6)",
     "C18": "compiled-vs-eager equivalence is a property of Dynamo/AOT tracing semantics outside the repository; graph-break fallback makes traceability of a helper not a necessary condition, so a decorator lint would both miss real divergences and alarm on harmless code (DESIGN.md §3 C18, §6)",
 }
 
